@@ -43,6 +43,10 @@ def cases(tier, seed):
                         if tier == "quick" and setup != "np2" and base == "probes" and agg not in ("all", "pc"):
                             continue
                         out.append({"setup": setup, "office": "G", "loc": loc, "pct": pct, "votes": votes, "agg": agg, "base": base, "seed": seed})
+    # the caller keeps its feed DataFrame between two polls and appends the new row to it
+    for setup in ("np2", "ga1", "bs1"):
+        for loc in ("known", "newcounty", "emptystate"):
+            out.append({"setup": setup, "office": "G", "loc": loc, "pct": 100, "votes": "large", "agg": "pc_cf", "base": "probes", "seed": seed, "reuse_feed": True})
     for setup in ("np1", "ga1", "bs1"):
         for district in ("1", "10", "77"):
             for county in ("AAc0", "AAcN"):
@@ -107,8 +111,18 @@ def evaluate(case):
         district = None
         uid = f"{county}_x9"
     extra = E.make_unit(uid, postal, county, "r", district, (0, 0, 0), (d, g, t), case["pct"], 0.0, in_baseline=False, in_feed=True, role="probe")
-    a = E.run_estimates(base_units, cfg, keep_client=True)
-    b = E.run_estimates(base_units + [extra], cfg, keep_client=True)
+    if case.get("reuse_feed"):
+        import pandas as pd
+
+        baseline, feed = E.frames(base_units, cfg)
+        a = E.run_estimates(base_units, cfg, keep_client=True, frames_override=(baseline, feed))
+        # second poll: the very same feed object, one row appended (positions: the new id sorts where frames() would put it)
+        feed2 = pd.concat([feed, E.frames([extra], cfg)[1]], ignore_index=True).sort_values("geographic_unit_fips").reset_index(drop=True)
+        b = E.run_estimates(base_units + [extra], cfg, keep_client=True, frames_override=(E.frames(base_units, cfg)[0], feed2))
+        cov["reused_feed_pairs"] += 1
+    else:
+        a = E.run_estimates(base_units, cfg, keep_client=True)
+        b = E.run_estimates(base_units + [extra], cfg, keep_client=True)
     if "error" in a:
         raise RuntimeError(f"base run failed: {a['error']}")
     if "error" in b:
@@ -192,4 +206,4 @@ def evaluate(case):
     return {"violations": V, "cov": dict(cov), "outcome": sha({k: v["rows"] for k, v in tb.items()})[:16], "nontrivial": True, "transitions": 2}
 
 
-REQUIRED_COUNTERS = {"new_group_rows": 100, "existing_group_rows": 100, "levels_not_attributable": 50}
+REQUIRED_COUNTERS = {"new_group_rows": 100, "existing_group_rows": 100, "levels_not_attributable": 50, "reused_feed_pairs": 6}
